@@ -389,15 +389,12 @@ def rule_reorder(chk):
                func='Solver.reorder_particles',
                detail_bad='after the particles are permuted the neighbour structures are not rebuilt: an evaluation that does not refresh them '
                           '(update_nnps=False, initial_acceleration) uses pre-permutation indices', detail_ok='self.nnps.update() after the permutation loop')
-    t = M.cy(NB)
-    fn = M.find_method(t, 'NNPS', 'spatially_order_particles')
-    cs = [c for c in M.calls(fn) if isinstance(c.func, ast.Attribute) and c.func.attr == 'c_align_array']
-    loop = M.enclosing(cs[0], (ast.For,)) if cs else None
-    gsi = [c for c in M.calls(fn) if (M.call_name(c) or '').endswith('get_spatially_ordered_indices') and len(c.args) == 2]
-    ok = len(cs) == 1 and loop is not None and compact(loop.iter) == 'pa.properties.items()' and len(gsi) == 1 and isinstance(gsi[0].args[1], ast.Name) and \
-        compact(cs[0].args[0]) == gsi[0].args[1].id and gsi[0].lineno < cs[0].lineno
-    chk.decide(ok, 'reordering', 'one-permutation-for-all-properties', node=fn, file=NB, func='NNPS.spatially_order_particles',
-               detail_bad='properties are not all permuted by the one index list (see C17 for the full rule set)', detail_ok='single list applied to every property')
+    # one index list applied to every property of the array with that property's stride: decided by the model run of NNPS.spatially_order_particles (rule shared with C17)
+    import importlib.util
+    spec17 = importlib.util.spec_from_file_location('c17mod', os.path.join(os.path.dirname(os.path.abspath(__file__)), 'c17.py'))
+    c17 = importlib.util.module_from_spec(spec17)
+    spec17.loader.exec_module(c17)
+    c17.rule_apply(chk)
 
 
 def main(chk):
@@ -438,6 +435,9 @@ def main(chk):
     # every algorithm finds the same cells as the others: cell ids keep their width from binning to look-up, and a query decodes the source array with the source array's layout
     c01.rule_narrowing(chk)
     c01.rule_query_array_index(chk)
+    c01.rule_every_level_searched(chk)
+    # x, y, z and h of one particle are read with one index (tree builders, serial and parallel: the maximum h of a node decides which nodes a query prunes)
+    c01.rule_coindexed(chk)
     # whether the neighbours are refreshed before an evaluation is decided by the integrator's request alone (rule shared with C04)
     spec4 = importlib.util.spec_from_file_location('c04mod', os.path.join(os.path.dirname(os.path.abspath(__file__)), 'c04.py'))
     c04 = importlib.util.module_from_spec(spec4)
